@@ -441,6 +441,7 @@ def run(repo: Repo, ctx) -> None:
     _r6(repo, ctx)
     _r7(repo, ctx)
     _r8(repo, ctx)
+    _r9(repo, ctx)
 
 
 def _r5(repo: Repo, ctx) -> None:
@@ -763,3 +764,94 @@ def _r8(repo: Repo, ctx) -> None:
                        sample=norm(val)[:50])
     if n < 4:
         raise AnalysisError(f'C14.R8: only {n} id-input list stores found')
+
+
+
+def _r9(repo: Repo, ctx) -> None:
+    """C14.R9 inside the per-element loops, the decoder makes a field
+    optional exactly where the encoder does.  R1 reads an undecided branch
+    of a decoder as a choice, which is right for a branch on wire data but
+    lets a decoder skip a field on a condition the encoder knows nothing
+    about.  Here the *presence conditions* are compared: a conjunct of an
+    `if` test one arm of which writes (encoder) / reads (decoder) while the
+    other does not.  Protocol-version conjuncts have to be the same set on
+    both sides; any other decoder-side presence condition needs an
+    encoder-side counterpart."""
+    ctx.floor('C14.R9', 1)
+    m = repo.module(MOD)
+    enc_by_tag: Dict[str, List[ast.FunctionDef]] = {}
+    dec_by_tag: Dict[str, List[ast.FunctionDef]] = {}
+    for fn in m.tree.body:
+        if not isinstance(fn, ast.FunctionDef):
+            continue
+        for d in fn.decorator_list:
+            if isinstance(d, ast.Call) and norm(d.func) == \
+                    '_parse_descriptor.register' and d.args:
+                dec_by_tag.setdefault(norm(d.args[0]).split('.')[-1],
+                                      []).append(fn)
+        if fn.name.startswith(('_describe', 'describe')):
+            for x in ast.walk(fn):
+                if isinstance(x, ast.Attribute) and x.attr == '_value_' and \
+                        norm(x.value).startswith('DescriptorTag.'):
+                    enc_by_tag.setdefault(norm(x.value).split('.')[-1],
+                                          []).append(fn)
+
+    def is_io(c: ast.Call, enc: bool) -> bool:
+        if enc:
+            return isinstance(c.func, ast.Attribute) and \
+                c.func.attr == 'append' and norm(c.func.value).endswith('buf')
+        return any(norm(a) == 'desc' for a in c.args) or \
+            norm(c.func).startswith('desc.')
+
+    def presence(fn: ast.FunctionDef, enc: bool):
+        ver, other = set(), set()
+        for lp in ast.walk(fn):
+            if not isinstance(lp, (ast.For, ast.While)):
+                continue
+            for i in ast.walk(lp):
+                if not isinstance(i, ast.If):
+                    continue
+                a = any(isinstance(c, ast.Call) and is_io(c, enc)
+                        for st in i.body for c in ast.walk(st))
+                b = any(isinstance(c, ast.Call) and is_io(c, enc)
+                        for st in i.orelse for c in ast.walk(st))
+                if a == b:
+                    continue          # both arms (or neither) move bytes
+                conj = i.test.values if isinstance(i.test, ast.BoolOp) and \
+                    isinstance(i.test.op, ast.And) else [i.test]
+                for t in conj:
+                    txt = norm(t).replace('ctx.', '')
+                    (ver if 'protocol_version' in txt else other).add(txt)
+        return ver, other
+    n = 0
+    for tag in sorted(set(enc_by_tag) & set(dec_by_tag)):
+        ev, eo, dv, do = set(), set(), set(), set()
+        for fn in enc_by_tag[tag]:
+            v, o = presence(fn, True)
+            ev |= v
+            eo |= o
+        for fn in dec_by_tag[tag]:
+            v, o = presence(fn, False)
+            dv |= v
+            do |= o
+        if not (ev or eo or dv or do):
+            continue
+        n += 1
+        dname = dec_by_tag[tag][0].name
+        if do and eo:
+            raise AnalysisError(f'C14.R9: {tag}: both sides make element '
+                                f'fields optional on non-version conditions '
+                                f'({sorted(eo)} / {sorted(do)}): cannot '
+                                f'pair them')
+        ctx.ob('C14.R9', f'{tag}:element-presence-conditions',
+               ev == dv and not do,
+               f'{dname} reads an element field only when '
+               f'{sorted(dv | do)} while the encoder writes it when '
+               f'{sorted(ev | eo) or "always"}: whenever the two disagree '
+               f'every later field of the descriptor is read at the wrong '
+               f'offset', f'{m.rel()}:{dec_by_tag[tag][0].lineno}',
+               sample=f'encoder {sorted(ev | eo)} = decoder '
+                      f'{sorted(dv | do)}')
+    if n < 1:
+        raise AnalysisError('C14.R9: no tag with conditional element fields '
+                            'on both sides found')
